@@ -129,6 +129,74 @@ def _normalise(body):
     return out
 
 
+def _inline_private_helpers(model, f, body, depth=0):
+    """Statement-level inlining of `x = _helper(args)` / `return _helper(args)` for private module-level helpers of the
+    same module that end in their only `return` (a function split into helpers keeps its shape for the rules below)."""
+    import copy
+    if depth > 3:
+        return body
+    mod_funcs = {st.name: st for st in f.module.tree.body if isinstance(st, ast.FunctionDef)}
+    caller_names = {n.id for st in body for n in ast.walk(st) if isinstance(n, ast.Name)} | set(f.params)
+    out = []
+    changed = False
+    for st in body:
+        call, tgt = None, None
+        if isinstance(st, ast.Assign) and len(st.targets) == 1 and isinstance(st.targets[0], ast.Name) and isinstance(st.value, ast.Call):
+            call, tgt = st.value, st.targets[0].id
+        elif isinstance(st, ast.AnnAssign) and isinstance(st.target, ast.Name) and isinstance(st.value, ast.Call):
+            call, tgt = st.value, st.target.id
+        elif isinstance(st, ast.Return) and isinstance(st.value, ast.Call):
+            call = st.value
+        h = mod_funcs.get(call.func.id) if call is not None and isinstance(call.func, ast.Name) and call.func.id.startswith("_") else None
+        if h is None or call.keywords or h.args.vararg or h.args.kwarg or h.args.kwonlyargs or len(call.args) != len(h.args.args) \
+                or not all(isinstance(a, (ast.Name, ast.Constant)) for a in call.args):
+            out.append(st)
+            continue
+        hb = [x for x in h.body if not (isinstance(x, ast.Expr) and isinstance(x.value, ast.Constant))]
+        rets = [n for x in hb for n in ast.walk(x) if isinstance(n, ast.Return)]
+        if not hb or len(rets) != 1 or rets[0] is not hb[-1] or rets[0].value is None:
+            out.append(st)
+            continue
+        params = [a.arg for a in h.args.args]
+        locs = {n.id for x in hb for n in ast.walk(x) if isinstance(n, ast.Name) and isinstance(n.ctx, ast.Store)}
+        ren = {}
+        for p_, a in zip(params, call.args):
+            ren[p_] = a
+        for l in locs:
+            if l in params:
+                ren.pop(l, None)     # a parameter the helper rebinds: keep it as a local of that name (copy-in below)
+            if l in caller_names and l != tgt and l not in params:
+                ren[l] = ast.Name(id=l + "__h", ctx=ast.Load())
+
+        class R(ast.NodeTransformer):
+            def visit_Name(self, n):
+                r = ren.get(n.id)
+                if r is None:
+                    return n
+                if isinstance(r, ast.Name):
+                    return ast.copy_location(ast.Name(id=r.id, ctx=n.ctx), n)
+                return ast.copy_location(copy.deepcopy(r), n) if isinstance(n.ctx, ast.Load) else n
+
+        new = []
+        for p_, a in zip(params, call.args):
+            if p_ in locs and not (isinstance(a, ast.Name) and a.id == p_):
+                new.append(ast.Assign(targets=[ast.Name(id=p_, ctx=ast.Store())], value=copy.deepcopy(a)))
+        for x in hb[:-1]:
+            new.append(R().visit(copy.deepcopy(x)))
+        rv = R().visit(copy.deepcopy(hb[-1].value))
+        if tgt is not None:
+            if not (isinstance(rv, ast.Name) and rv.id == tgt):
+                new.append(ast.Assign(targets=[ast.Name(id=tgt, ctx=ast.Store())], value=rv))
+        else:
+            new.append(ast.Return(value=rv))
+        for x in new:
+            ast.copy_location(x, st)
+            ast.fix_missing_locations(x)
+        out.extend(new)
+        changed = True
+    return _inline_private_helpers(model, f, out, depth + 1) if changed else out
+
+
 def _mask_test(t):
     """`name & C != 0` -> (name, C)"""
     if isinstance(t, ast.Compare) and len(t.ops) == 1 and isinstance(t.ops[0], ast.NotEq) and _hex(t.comparators[0]) == 0 \
@@ -161,7 +229,7 @@ def _src_paths(model, f, src):
 def tickmath_shape(model, res):
     from ..vn import same_function
     f = model.func("uniswap.liquitidy_math.get_sqrt_ratio_at_tick")
-    body = _normalise(f.node.body)
+    body = _normalise(_inline_private_helpers(model, f, _normalise(f.node.body)))
     tick = f.params[0]
     problems = []
     # the first statement that tests a bit of |tick| starts the product; everything before it defines |tick|
